@@ -257,8 +257,7 @@ func ZZ_C02_boundary() {
 				want = append(want, byte(bits>>(8*uint(j))))
 			}
 		}
-		rt.Assert(rt.BytesEq(ast.NewFloatNode(w, vals...).ToBytes(), want), "boundary-item-bytes")
-		rt.Reach("end")
+		zzBoundaryCheck(ast.NewFloatNode(w, vals...), want)
 		return
 	}
 	if kind == zzBoolean {
@@ -274,12 +273,81 @@ func ZZ_C02_boundary() {
 			vals[i] = v
 			want = append(want, byte(rt.Ite(v, 1, 0)))
 		}
-		rt.Assert(rt.BytesEq(ast.NewBooleanNode(vals...).ToBytes(), want), "boundary-item-bytes")
-		rt.Reach("end")
+		zzBoundaryCheck(ast.NewBooleanNode(vals...), want)
 		return
 	}
 	item, payload := zzLeaf(kind, n, "v")
-	rt.Assert(rt.BytesEq(item.ToBytes(), zzLeafEnc(kind, n, payload)), "boundary-item-bytes")
+	zzBoundaryCheck(item, zzLeafEnc(kind, n, payload))
+}
+
+// zzBoundaryCheck: the item alone, and as the first of two elements of a list inside a list
+// (a list's encoding is its children's encodings in order, whatever their sizes).
+func zzBoundaryCheck(item ast.ItemNode, want []byte) {
+	rt.Assert(rt.BytesEq(item.ToBytes(), want), "boundary-item-bytes")
+	tail := ast.NewBinaryNode(5)
+	l := ast.NewListNode(ast.NewListNode(item, tail), item)
+	exp := append([]byte{0x01, 0x02, 0x01, 0x02}, want...)
+	exp = append(exp, 0x21, 0x01, 0x05)
+	exp = append(exp, want...)
+	rt.Assert(rt.BytesEq(l.ToBytes(), exp), "boundary-item-inside-lists")
+	rt.Reach("end")
+}
+
+// ZZ_C02_chain: d nested single-element lists around a leaf (and a sibling behind every
+// third level): the encoding is d list headers, the leaf, the siblings; decodes to the same.
+func ZZ_C02_chain() {
+	d := rt.Param("d")
+	v := rt.Byte("v")
+	var item ast.ItemNode = ast.NewBinaryNode(int(v))
+	want := []byte{0x21, 0x01, v}
+	for i := d - 1; i >= 0; i-- {
+		if i%3 == 2 {
+			item = ast.NewListNode(item, ast.NewUintNode(1, i%200))
+			want = append(append([]byte{0x01, 0x02}, want...), 0xA5, 0x01, byte(i%200))
+		} else {
+			item = ast.NewListNode(item)
+			want = append([]byte{0x01, 0x01}, want...)
+		}
+	}
+	rt.Assert(rt.BytesEq(item.ToBytes(), want), "chain-bytes")
+	st, fn, wb, sid, sys := zzHeaderFields()
+	m := ast.NewHSMSDataMessage("", st, fn, wb, "H<->E", item, sid, sys)
+	b := m.ToBytes()
+	rt.Assert(rt.BytesEq(b, zzFrame(st, fn, wb, sid, sys, want)), "chain-message-bytes")
+	got, ok := Parse(append([]byte{}, b...))
+	rt.Assert(ok, "chain:decode-ok")
+	if ok {
+		rt.Assert(rt.BytesEq(got.ToBytes(), b), "chain:re-encode-identical")
+	}
+	rt.Reach("end")
+}
+
+// ZZ_C02_manylists: a list of n empty lists (and one of n empty items of another format):
+// n two-byte children behind the header; decodes to the same.
+func ZZ_C02_manylists() {
+	n, kind := rt.Param("n"), rt.Param("kind")
+	kids := make([]interface{}, n)
+	child := []byte{0x01, 0x00}
+	var c ast.ItemNode = ast.NewListNode()
+	if kind == 1 {
+		child, c = []byte{0x21, 0x00}, ast.NewBinaryNode()
+	}
+	want := zzHeader(0, n)
+	for i := range kids {
+		kids[i] = c
+		want = append(want, child...)
+	}
+	item := ast.NewListNode(kids...)
+	rt.Assert(rt.BytesEq(item.ToBytes(), want), "manylists-bytes")
+	st, fn, wb, sid, sys := zzHeaderFields()
+	rt.Assume(wb == 0)
+	m := ast.NewHSMSDataMessage("", st, fn, wb, "H<->E", item, sid, sys)
+	b := m.ToBytes()
+	got, ok := Parse(append([]byte{}, b...))
+	rt.Assert(ok, "manylists:decode-ok")
+	if ok {
+		rt.Assert(len(got.ToBytes()) == len(b), "manylists:re-encode-length")
+	}
 	rt.Reach("end")
 }
 
